@@ -1732,3 +1732,51 @@ def run_c13(ctx):
 REGISTRY["C13"] = dict(module="Properties_C13", run=run_c13,
                        trusted=["tools/gen_census.py (clang -ast-dump=json census of allocation call sites; its own regression "
                                 "tests: tools/census_selftest.sh)"])
+
+
+# ------------------------------------------------------------------------------------------
+# C14: threads (ThreadSanitizer build of harness/thr.c)
+
+def run_c14(ctx):
+    res = Result()
+    exe = os.path.join(os.path.dirname(ctx.harness("tsan")), "thr")
+    runner = ctx.runner("tsan")
+    runs = [(2, 300), (4, 200), (8, 150)] if ctx.tier == "quick" else [(2, 3000), (3, 2000), (8, 2000), (16, 1000)]
+    env = dict(os.environ)
+    env["TSAN_OPTIONS"] = "halt_on_error=1:exitcode=66:report_signal_unsafe=0"
+    total = 0
+    for rep in range(2 if ctx.tier == "quick" else 4):
+        for nt, it in runs:
+            wd = runner.workdir()
+            try:
+                p = subprocess.run([exe, wd, str(nt), str(it)], stdout=subprocess.PIPE, stderr=subprocess.PIPE, timeout=900, env=env)
+                rc, out, err = p.returncode, p.stdout.decode("latin-1"), p.stderr.decode("latin-1", "replace")
+            except subprocess.TimeoutExpired:
+                rc, out, err = "HANG", "", ""
+            shutil.rmtree(wd, ignore_errors=True)
+            total += nt * it
+            if rc != 0:
+                kind = "ThreadSanitizer reported a data race" if rc == 66 else (
+                    "a thread obtained results that differ from its results running alone" if rc == 1 else "status %s" % rc)
+                res.violations.append(dict(name="threads_%d_%d" % (nt, it), replay=(
+                    "# property C14 -- %d threads x %d iterations of harness/thr.c (each thread reads with @include, looks up, "
+                    "modifies, writes and re-reads its own configuration objects): %s\n"
+                    "# replay: <tsan build>/thr <empty dir> %d %d\n#--- stdout:\n#%s\n#--- stderr (tail):\n#%s\n" % (
+                        nt, it, kind, nt, it, "\n#".join(out.splitlines()[-5:]), "\n#".join(err.splitlines()[-40:])))))
+                break
+        if res.violations:
+            break
+    res.evaluations = total
+    res.distinct = total
+    res.distribution = {"runs": ["%d threads x %d iterations" % r for r in runs], "thread_programs_executed": total}
+    res.rule = ("N threads (2..8 quick, up to 16 thorough), each with its own configuration objects, different options, "
+                "precisions and include directories, run read_string with @include / lookups / API edits with overrides, hooks "
+                "and removals / write to memory / write_file / read_file / failing reads concurrently, under ThreadSanitizer; "
+                "every iteration's complete result string is compared with the same program run alone before the threads start")
+    res.samples = ["see harness/thr.c:run_program"]
+    return res
+
+
+REGISTRY["C14"] = dict(module="Properties_C14", run=run_c14,
+                       trusted=["tools/gen_census.py (clang AST census of writable static objects and their writers)",
+                                "ThreadSanitizer (gcc -fsanitize=thread) as race detector for the harness runs"])
